@@ -217,14 +217,29 @@ def check(ctx):
     ir_ret = isum.ret()
     ctx.require(ir_ret[0] == "call" and len(ir_ret[2]) == 2, f"{gi.where()}: result is not PredictionIntervals(lower, upper)")
     LO, UP = ir_ret[2]
-    ctx.require(LO[0] == "phi" and LO[1] == TOPC and UP[0] == "phi" and UP[1] == TOPC,
-                f"{gi.where()}: bounds are not 'top level ? adjusted : raw'")
-    L0, U0 = LO[3], UP[3]
+    # views at / below the top level, whatever the branch layout
+    tops = [x for x in ir.walk(LO) if x[0] == "phi" and x[1] == TOPC] + [x for x in ir.walk(UP) if x[0] == "phi" and x[1] == TOPC]
+    ctx.require(tops, f"{gi.where()}: bounds do not distinguish the top level (race calls are applied there only)")
+    LO = ("phi", TOPC, ir.resolve_phi(LO, TOPC, True), ir.resolve_phi(LO, TOPC, False))
+    UP = ("phi", TOPC, ir.resolve_phi(UP, TOPC, True), ir.resolve_phi(UP, TOPC, False))
+    # the unadjusted (straddled) bounds are what the top-level adjustment starts from: the deepest common operand
+    L0 = next((x for x in ir.walk(LO[2]) if x[0] == "call" and ir.show(x[1]).endswith("minimum")), None)
+    U0 = next((x for x in ir.walk(UP[2]) if x[0] == "call" and ir.show(x[1]).endswith("maximum")), None)
+    ctx.require(L0 is not None and U0 is not None, f"{gi.where()}: straddled bounds (minimum / maximum around the prediction) not found under the adjustment")
     fccs = [x for x in ir.walk(LO[2]) if _is_fcc(x)] + [x for x in ir.walk(UP[2]) if _is_fcc(x)]
     called_i = [x for x in fccs if len(x[2]) == 6 and x[2][1] != ("list", ())]
     stop_i = [x for x in fccs if len(x[2]) == 6 and x[2][1] == ("list", ())]
-    ctx.require(called_i and stop_i, f"{gi.where()}: call / stop vectors not found in the interval adjustment")
-    CALLED_I, STOP_I = called_i[0], stop_i[0]
+    ctx.require(called_i, f"{gi.where()}: call vector not found in the interval adjustment")
+    CALLED_I = called_i[0]
+    # every list of contest names that comes in through the public API has to pass the validation of _format_called_contests
+    # (unknown names raise); a stop vector built any other way accepts a mistyped name silently and leaves the contest callable
+    ctx.ob("C07.R1.validated", f"{gi.qualname}|stop list validated against the modelled contests", bool(stop_i), gi.where(),
+           "the stop list is turned into a vector by _format_called_contests, which rejects names that are not modelled" if stop_i
+           else "the stop vector is not built by _format_called_contests: a stop-listed name that is not a modelled contest is accepted "
+                "silently instead of raising, and the contest the operator meant to stop stays callable")
+    if not stop_i:
+        return
+    STOP_I = stop_i[0]
     ctx.ob("C07.R1.site", f"{gi.qualname}|lists from the caller", _kwget(CALLED_I[2][0], "lhs_called_contests") and _kwget(STOP_I[2][0], "stop_model_call"),
            gi.where(), "interval vectors are built from kwargs lhs_called_contests / stop_model_call"
            if _kwget(CALLED_I[2][0], "lhs_called_contests") and _kwget(STOP_I[2][0], "stop_model_call")
@@ -276,8 +291,8 @@ def check(ctx):
         if w[1] in ("called_contests", "stop_model_call"):
             pass
     # centre of the interval at top level is the adjusted prediction kept by get_aggregate_predictions
-    centre = [x for x in ir.walk(L0) if x[0] == "phi" and x[1] == TOPC]
-    okc = bool(centre) and centre[0][2] == ("attr", SELF, "aggregate_pred_margin")
+    APM = ("attr", SELF, "aggregate_pred_margin")
+    okc = all(L_[0] == "call" and any(a[0] == "bin" and a[1] in "+-" and a[2] == APM and a[3][0] == "const" for a in L_[2]) for L_ in (L0, U0))
     ctx.ob("C07.R3.centre", f"{gi.qualname}|interval centred on the reported prediction", okc, gi.where(),
            "top-level intervals are built around the call-adjusted prediction" if okc else "top-level intervals are not centred on the adjusted prediction")
 
